@@ -266,8 +266,20 @@ EXTRA_SCRIPTS = [
 ]
 
 
+def _keys(n):
+    return ",".join("K%02d" % i for i in range(n))
+
+
+# thresholds at and beyond the CHECKMULTISIG limit (20) and large CHECKSIGADD chains
+BIG_SCRIPTS = [
+    ("multi(20,%s)" % _keys(20), "segwitv0"), ("multi(1,%s)" % _keys(20), "segwitv0"),
+    ("multi_a(21,%s)" % _keys(25), "tap"), ("multi_a(25,%s)" % _keys(25), "tap"), ("multi_a(1,%s)" % _keys(30), "tap"),
+    ("and_v(v:multi_a(22,%s),older(144))" % _keys(30), "tap"),
+]
+
+
 def family():
-    return list(c13.SCRIPTS) + EXTRA_SCRIPTS
+    return list(c13.SCRIPTS) + EXTRA_SCRIPTS + BIG_SCRIPTS
 
 
 def check_decoder(chk, F):
@@ -372,7 +384,7 @@ def check_decoder_panics(chk, F, R="R11.6"):
                 "duplication, neighbour swap, opcode insertion / replacement and push insertion / replacement (keys of "
                 "the wrong kind, hashes, non-minimal / negative / oversized numbers, truncated script) of the script of "
                 "every miniscript of the family, plus every one- and two-instruction script over all opcodes")
-    jobs = [(t, c, chk.tier) for (t, c) in family()]
+    jobs = [(t, c, chk.tier) for (t, c) in family() if chk.tier != "quick" or (t, c) not in BIG_SCRIPTS[2:]]
     with mp.Pool(min(16, os.cpu_count() or 4)) as pool:
         results = pool.map(_mal_work, jobs, chunksize=1)
     total = 0
